@@ -345,20 +345,27 @@ impl<I: Ip> TorrentMapShards<I> {
                     }
 
                     if let Some(w) = opt_scrape_export_writer.as_mut() {
-                        let result = writeln!(
-                            w,
-                            "{ip_version} {info_hash} {seeders} {leechers}",
+                        // Format the line before writing it, since write
+                        // errors can get lost inside formatting code
+                        let line = format!(
+                            "{ip_version} {info_hash} {seeders} {leechers}\n",
                             ip_version = I::version_char(),
                             info_hash = const_hex::display(info_hash.0),
                             seeders = num_seeders,
                             leechers = num_leechers
                         );
 
+                        let result = w.write_all(line.as_bytes());
+
                         if let Err(err) = result {
                             ::log::error!(
                                 "Could not write to temporary scrape export file: {:?}",
                                 err
                             );
+
+                            // Abandon this export. Otherwise, an incomplete
+                            // file would replace the previous export
+                            *opt_scrape_export_writer = None;
                         }
                     }
                 }
